@@ -37,12 +37,12 @@ func drain(ch <-chan Change) (got []Change, closed bool) {
 }
 
 type c19Case struct {
-	Kind   string   `json:"kind"`
-	Masks  []uint   `json:"masks,omitempty"`
-	Seq    []uint   `json:"changes,omitempty"`
-	Iface  string   `json:"event_interface,omitempty"`
-	N      int      `json:"undrained,omitempty"`
-	Err    bool     `json:"watch_fails,omitempty"`
+	Kind  string `json:"kind"`
+	Masks []uint `json:"masks,omitempty"`
+	Seq   []uint `json:"changes,omitempty"`
+	Iface string `json:"event_interface,omitempty"`
+	N     int    `json:"undrained,omitempty"`
+	Err   bool   `json:"watch_fails,omitempty"`
 }
 
 // notifyNB calls w.notify and reports whether it returned without blocking
@@ -275,4 +275,83 @@ func TestVerifC19(t *testing.T) {
 			r.Violation("C19:process", fmt.Sprintf("process with operstate %d = %v, want %v", v, cs, wantCS), nil)
 		}
 	}
+
+	// Batches: one Receive() may carry messages of several interfaces in any order.
+	// All batches of up to 4 (thorough 5) messages over {eth0, eth1, eth2} x {down, up,
+	// lower-layer-down} + a link message without attributes + a non-link message +
+	// an unknown operational state: process() must give, per interface, exactly that
+	// interface's changes in batch order, and a subscriber of every interface fed
+	// through the real notify must receive exactly those.
+	type bm struct {
+		ifi string
+		st  rtnetlink.OperationalState
+	}
+	var alpha []bm
+	for _, ifi := range []string{"eth0", "eth1", "eth2"} {
+		for _, st := range []rtnetlink.OperationalState{rtnetlink.OperStateDown, rtnetlink.OperStateUp, rtnetlink.OperStateLowerLayerDown} {
+			alpha = append(alpha, bm{ifi, st})
+		}
+	}
+	alpha = append(alpha, bm{"", 0}, bm{"addr", 0}, bm{"eth0", rtnetlink.OperationalState(99)})
+	maxBatch := 4
+	if r.Thorough() {
+		maxBatch = 5
+	}
+	nb := 0
+	enum.Sequences(len(alpha), maxBatch, func(seq []int) bool {
+		nb++
+		if !r.Mine(nb) {
+			return true
+		}
+		var msgs []rtnetlink.Message
+		wantCS := map[string][]Change{}
+		for _, i := range seq {
+			a := alpha[i]
+			switch {
+			case a.ifi == "":
+				msgs = append(msgs, &rtnetlink.LinkMessage{})
+			case a.ifi == "addr":
+				msgs = append(msgs, &rtnetlink.AddressMessage{})
+			default:
+				msgs = append(msgs, &rtnetlink.LinkMessage{Attributes: &rtnetlink.LinkAttributes{Name: a.ifi, OperationalState: a.st}})
+				if c, ok := want[a.st]; ok {
+					wantCS[a.ifi] = append(wantCS[a.ifi], c)
+				}
+			}
+		}
+		distinctIf := len(wantCS) >= 2
+		r.Case(fmt.Sprintf("batch %v", seq), distinctIf)
+		cs := process(msgs)
+		got := map[string][]Change{}
+		for k, v := range cs {
+			got[k] = append([]Change(nil), v...)
+		}
+		if fmt.Sprint(got) != fmt.Sprint(wantCS) {
+			r.Violation("C19:process-batch", fmt.Sprintf("batch %v: process = %v, want %v", seq, got, wantCS), nil)
+			return true
+		}
+		// Through the real notify to subscribers of each interface.
+		w := NewWatcher()
+		subs := map[string]<-chan Change{}
+		for _, ifi := range []string{"eth0", "eth1", "eth2"} {
+			subs[ifi] = w.Subscribe(ifi, LinkAny)
+		}
+		w.notify(cs)
+		for ifi, ch := range subs {
+			var rec []Change
+		drain:
+			for {
+				select {
+				case c := <-ch:
+					rec = append(rec, c)
+				default:
+					break drain
+				}
+			}
+			if fmt.Sprint(rec) != fmt.Sprint(wantCS[ifi]) {
+				r.Violation("C19:batch-delivery", fmt.Sprintf("batch %v: subscriber of %s received %v, want %v", seq, ifi, rec, wantCS[ifi]), nil)
+			}
+		}
+		return true
+	})
 }
